@@ -181,6 +181,38 @@ void fold_tree(node* n, const execution_data& ed) {
     static_cast<wait_node*>(n)->m_wait.release();
 }
 
+//! Unwinds the tree like fold_tree for node types whose join() runs user code, which may throw.
+/** The task is still intact when this is called and `n` is its own link into the tree: it follows the unwinding, and a
+    node whose join() has thrown gets its reference back. The exception then leaves execute(), the group is cancelled and
+    cancel() repeats the call, which continues where this one was interrupted (join() is skipped in a cancelled group).
+    Returns the wait node if the root has been reached; the caller releases it after destroying the task. **/
+template<typename TreeNodeType>
+wait_node* fold_tree_to_root(node*& n, const execution_data& ed) {
+    for (;;) {
+        __TBB_ASSERT(n, nullptr);
+        __TBB_ASSERT(n->m_ref_count.load(std::memory_order_relaxed) > 0, "The refcount must be positive.");
+        call_itt_task_notify(releasing, n);
+        if (--n->m_ref_count > 0) {
+            return nullptr;
+        }
+        node* parent = n->my_parent;
+        if (!parent) {
+            break;
+        };
+
+        call_itt_task_notify(acquired, n);
+        TreeNodeType* self = static_cast<TreeNodeType*>(n);
+        try_call([&] {
+            self->join(ed.context);
+        }).on_exception([&] {
+            ++n->m_ref_count;
+        });
+        self->m_allocator.delete_object(self, ed);
+        n = parent;
+    }
+    return static_cast<wait_node*>(n);
+}
+
 //! Depth is a relative depth of recursive division inside a range pool. Relative depth allows
 //! infinite absolute depth of the recursion for heavily unbalanced workloads with range represented
 //! by a number that cannot fit into machine word.
